@@ -10,7 +10,7 @@ from .. import core
 from ..core import Result, Violation
 from ..seam2 import SiteWorld
 
-from aiocoap import Message, GET, resource
+from aiocoap import Message, GET, resource, interfaces
 
 PROP = "C17"
 LEVEL = "model_checking"
@@ -56,6 +56,22 @@ class Rec(resource.Resource):
         return Message(payload=self.rid.encode())
 
 
+class Bare(interfaces.Resource):
+    """A resource written against the bare interface: it has no get_link_description at all (so it publishes a link without
+    attributes) - whatever its neighbours in the site publish or hide."""
+
+    def __init__(self, rid, log):
+        super().__init__()
+        self.rid, self.log = rid, log
+
+    async def needs_blockwise_assembly(self, request):
+        return True
+
+    async def render(self, request):
+        self.log.append((self.rid, tuple(request.opt.uri_path), request.get_request_uri()))
+        return Message(code=69, payload=self.rid.encode())
+
+
 class Leaf(resource.Resource, resource.PathCapable):
     """Not a Site, but promises to parse the path itself: receives the remainder."""
 
@@ -68,7 +84,8 @@ class Leaf(resource.Resource, resource.PathCapable):
         return Message(payload=self.rid.encode())
 
 
-ATTRS = [dict(), dict(rt="x"), dict(rt="x y", ct="0 41"), dict(if_="core.s", ct="40"), dict(hidden=True), dict(rt="xy"), dict(rt="unit=C", if_="a=b=c")]
+ATTRS = [dict(), dict(rt="x"), dict(rt="x y", ct="0 41"), dict(if_="core.s", ct="40"), dict(hidden=True), dict(rt="xy"), dict(rt="unit=C", if_="a=b=c"),
+         dict(bare=True), dict(ct=0, rt="note")]      # 7: no get_link_description; 8: the integer content format 0
 
 
 def build_site(cfg, log):
@@ -76,7 +93,10 @@ def build_site(cfg, log):
     resources, subsites, leaves = cfg
     site = resource.Site()
     for path, ai in resources:
-        site.add_resource(list(path), Rec("R" + "/".join(path) + "#%d" % ai, log, **ATTRS[ai]))
+        if ATTRS[ai].get("bare"):
+            site.add_resource(list(path), Bare("R" + "/".join(path) + "#%d" % ai, log))
+        else:
+            site.add_resource(list(path), Rec("R" + "/".join(path) + "#%d" % ai, log, **ATTRS[ai]))
     for path, inner in subsites:
         site.add_resource(list(path), build_site(inner, log))
     for path in leaves:
@@ -121,7 +141,7 @@ def model_links(cfg, prefix=""):
         if "if_" in a:
             attrs["if"] = a["if_"]
         if "ct" in a:
-            attrs["ct"] = a["ct"]
+            attrs["ct"] = str(a["ct"])
         out.append((prefix + "/" + "/".join(p), attrs))
     for p, inner in subsites:
         out += model_links(inner, prefix + "/" + "/".join(p))
@@ -396,7 +416,9 @@ def configs(tier, seed):
             continue
         out.append((tuple(rs), (), ()))
     # nested sites: 1 or 2 of them with every inner shape, plus a few plain resources around
-    around = [(), ((("a",), 1),), ((("a", "b"), 2), (("",), 4)), (((), 5), (("a", ""), 3)), ((("m=1",), 6), (("b",), 1))]
+    around = [(), ((("a",), 1),), ((("a", "b"), 2), (("",), 4)), (((), 5), (("a", ""), 3)), ((("m=1",), 6), (("b",), 1)),
+              # a resource without get_link_description right behind one that hides itself / one that has attributes
+              ((("a", "a"), 4), (("a", "b"), 7), (("b", "b"), 8)), ((("a", "a"), 2), (("a", "b"), 7), (("b", "a"), 7))]
     for sp in SUBPATHS:
         for inner in INNER:
             for ar in around:
